@@ -114,7 +114,7 @@ class Arr:
                 i = idx[0]
                 ci = conc(i)
                 if ci is not None:
-                    return rows[ci].get(idx[1:])
+                    return rows[ci if 0 <= ci < n else 0].get(idx[1:])
                 r = rows[-1].get(idx[1:])
                 for j in range(n - 2, -1, -1):
                     r = ite(as_sym(i) == j, rows[j].get(idx[1:]), r)
@@ -133,7 +133,9 @@ class Arr:
             ci = conc(i)
             if ci is not None:
                 if not (0 <= ci < n):
-                    raise IndexError("index out of range")
+                    # element functions are total (guards such as `where`/window-fit select the
+                    # meaningful branch); genuine indexing goes through __getitem__'s bounds check
+                    return syms[0] if syms else Sym(0.0)
                 return syms[ci]
             r = syms[-1]
             for j in range(n - 2, -1, -1):
@@ -1502,6 +1504,20 @@ def _atan2(y, x):
     return Sym(f_atan2(y.real(), x.real()), b_or(y.nan, x.nan))
 
 
+class _DType:
+    """np.float32 & co: usable as dtype= argument and as a scalar constructor"""
+
+    def __init__(self, name, kind):
+        self.name = name
+        self.__dtype_kind__ = kind
+
+    def __call__(self, x=0):
+        return cast_any(x, self.name)
+
+    def __repr__(self):
+        return f"<shim dtype {self.name}>"
+
+
 class NPShim:
     """object bound to the name `np` inside wavespectra modules"""
 
@@ -1509,11 +1525,12 @@ class NPShim:
     nan = NANSYM
     inf = float("inf")
     newaxis = None
-    float32 = staticmethod(lambda x=0.0: cast_any(x, "float32"))
-    float64 = staticmethod(lambda x=0.0: cast_any(x, "float64"))
-    int16 = "int16"
-    int32 = "int32"
-    int64 = "int64"
+    float32 = _DType("float32", "f")
+    float64 = _DType("float64", "f")
+    int16 = _DType("int16", "i")
+    int32 = _DType("int32", "i")
+    int64 = _DType("int64", "i")
+    bool_ = _DType("bool", "b")
     ndarray = Arr
     timedelta64 = real_np.timedelta64
     datetime64 = real_np.datetime64
@@ -1753,7 +1770,31 @@ class NPShim:
 
     @staticmethod
     def unique(a, return_index=False, **kw):
-        raise Outside("np.unique")
+        """sorted distinct values (and index of first occurrence): bounded extents only; the
+        number of distinct values is decided per path"""
+        if hasattr(a, "_arr"):
+            a = a._arr()
+        a = asarr(a)
+        if a.ndim != 1 or conc(a.shape_[0]) is None or conc(a.shape_[0]) > 8:
+            raise Outside("np.unique on symbolic-length array")
+        n = conc(a.shape_[0])
+        vals = [a.get((Sym(i),)) for i in range(n)]
+        keep = []
+        for i in range(n):
+            dup = False
+            for k in keep:
+                if bool(vals[k] == vals[i]):
+                    dup = True
+                    break
+            if not dup:
+                keep.append(i)
+        sub = Arr.from_list([vals[i] for i in keep], a.kind)
+        order = argsort1d(sub)
+        uniq = sub[order]
+        if not return_index:
+            return uniq
+        idx = Arr.from_list([Sym(i) for i in keep], "i")[order]
+        return uniq, idx
 
     @staticmethod
     def searchsorted(a, v, side="left"):
@@ -1805,6 +1846,25 @@ def argsort1d(a):
         raise Outside("argsort n-d")
     n = a.shape_[0]
     cn = conc(n)
+    if cn is not None and cn <= 8:
+        # bounded extent: stable ranks as ite-terms, no quantifiers
+        vals = [a.get((Sym(i),)) for i in range(cn)]
+        ranks = []
+        for i in range(cn):
+            r = Sym(0)
+            for k in range(cn):
+                if k == i:
+                    continue
+                before = (vals[k] < vals[i]) | ((vals[k] == vals[i]) & Sym(k < i))
+                r = r + ite(before, Sym(1), Sym(0))
+            ranks.append(r)
+        perm = []
+        for pos in range(cn):
+            p = Sym(0)
+            for i in range(cn):
+                p = p + ite(ranks[i] == pos, Sym(i), Sym(0))
+            perm.append(Sym(z3.simplify(p.t)))
+        return Arr.from_list(perm, "i")
     sig = z3.Function(fresh_name("perm"), _I, _I)
     inv = z3.Function(fresh_name("pinv"), _I, _I)
     k = z3.Int(fresh_name("q"))
@@ -1912,6 +1972,41 @@ def sh_range(*args):
     return builtins.range(*[a.__index__() if isinstance(a, Sym) else a for a in args])
 
 
+class SymSet(list):
+    """set() of symbolic scalars: distinct representatives, equality decided per path"""
+
+
+def sh_set(it=()):
+    items = list(it)
+    if not any(isinstance(x, (Sym, Arr)) for x in items):
+        return builtins.set(items)
+    out = SymSet()
+    for x in items:
+        x = as_sym(x)
+        if not builtins.any(bool(x == y) for y in out):
+            out.append(x)
+    return out
+
+
+def sh_sorted(it, key=None, reverse=False):
+    items = list(it)
+    probe = [key(x) if key else x for x in items]
+    if not builtins.any(isinstance(p, Sym) for p in probe):
+        return builtins.sorted(items, key=key, reverse=reverse)
+    # insertion sort with symbolic comparisons decided per path (stable)
+    out = []
+    for x in items:
+        kx = key(x) if key else x
+        pos = len(out)
+        for i, y in enumerate(out):
+            ky = key(y) if key else y
+            if bool((kx > ky) if reverse else (kx < ky)):
+                pos = i
+                break
+        out.insert(pos, x)
+    return out
+
+
 sh_int.__dtype_kind__ = "i"
 sh_float.__dtype_kind__ = "f"
 
@@ -1924,4 +2019,6 @@ BUILTIN_SHIMS = {
     "max": sh_max,
     "round": sh_round,
     "range": sh_range,
+    "set": sh_set,
+    "sorted": sh_sorted,
 }
